@@ -20,11 +20,14 @@ Import ListNotations.
 Local Open Scope Z_scope.
 
 (* the set of callbacks invoked does not depend on the lookup strategy: for
-   every table the (repaired) library decides to hash, every 7-bit address and
-   every type string, the hashed lookup hits port j iff the linear scan does;
-   it never fails.  pos / assoc are ANY result of the search. *)
+   every table the (repaired) library decides to hash, every address (any
+   bytes 0..255 - byte_str only says the list holds bytes; the letter table has
+   256 entries since the fix "the perfect-hash letter table was indexed with a
+   plain char") and every type string, the hashed lookup hits port j iff the
+   linear scan does; it never fails (no read outside assoc).  pos / assoc are
+   ANY result of the search. *)
 Theorem C04_strategy_independent : forall T H m args,
-  tables_of T = Some H -> lit_table T -> assoc_ok T -> addr_chars m -> seven_bit m ->
+  tables_of T = Some H -> lit_table T -> assoc_ok T -> addr_chars m -> byte_str m ->
   lookup_hit T H m args <> LErr /\
   forall j name sub,
     lookup_hit T H m args = LHit j name sub <->
@@ -67,7 +70,7 @@ Proof. exact scan_hits_in. Qed.
 
 (* a hashed table delivers a message to at most one port *)
 Theorem C04_one_port : forall T H m args j1 n1 s1 p1 j2 n2 s2 p2,
-  tables_of T = Some H -> lit_table T -> assoc_ok T -> addr_chars m -> seven_bit m ->
+  tables_of T = Some H -> lit_table T -> assoc_ok T -> addr_chars m -> byte_str m ->
   In (j1, n1, s1, p1) (scan_hits (t_ports T) 0 m args) ->
   In (j2, n2, s2, p2) (scan_hits (t_ports T) 0 m args) -> j1 = j2.
 Proof. exact hashed_table_unique. Qed.
@@ -94,9 +97,10 @@ Theorem C04_loc_restored_hashed : forall cb dh T H m args obj0 old st,
   loc (lookup_loc cb dh T H m args obj0 old st) = Some old.
 Proof. exact lookup_loc_restores. Qed.
 
-(* the default handler (hashed branch) runs only when no port matches *)
+(* the default handler (hashed branch) runs only when no port matches; the two
+   scans: C04_unhashed_same_calls; the whole tree: C04_default_handler_every_path *)
 Theorem C04_default_handler_only_when_no_port_matches : forall T H m args,
-  tables_of T = Some H -> lit_table T -> assoc_ok T -> addr_chars m -> seven_bit m ->
+  tables_of T = Some H -> lit_table T -> assoc_ok T -> addr_chars m -> byte_str m ->
   lookup_hit T H m args = LMiss -> scan_hits (t_ports T) 0 m args = [].
 Proof. exact default_only_when_no_match. Qed.
 
@@ -124,10 +128,52 @@ Theorem C04_prefix_refuted :
 Proof. exact d23_refuted. Qed.
 
 Theorem C04_witnesses_repaired :
-  run_new tab_d3 [47; 97; 98] true = [0] /\ run_new tab_d3 [47; 97; 98] false = [0] /\
-  run_new tab_d20 [47; 97; 47; 98] true = [1] /\ run_new tab_d20 [47; 97; 47; 98] false = [1] /\
-  run_new tab_d23 [47; 97; 98] true = [] /\ run_new tab_d23 [47; 97; 98] false = [].
+  run_new (widen tab_d3) [47; 97; 98] true = [0] /\ run_new (widen tab_d3) [47; 97; 98] false = [0] /\
+  run_new (widen tab_d20) [47; 97; 47; 98] true = [1] /\ run_new (widen tab_d20) [47; 97; 47; 98] false = [1] /\
+  run_new (widen tab_d23) [47; 97; 98] true = [] /\ run_new (widen tab_d23) [47; 97; 98] false = [].
 Proof. exact witnesses_repaired. Qed.
+
+(* the letter table as pinned (127 entries, plain-char index): {ab,cd,ef} is
+   hashed, and the lookup of "/\xe9\xe9" and of "/\x7f" reads outside the
+   table (None = index outside the vector; on the real code: ASan
+   heap-buffer-overflow in Ports::dispatch) *)
+Theorem C04_highbyte_refuted :
+  tables_of (tab_hi 127) <> None /\
+  hash_of_old [0] (assoc_ace 127) [233; 233] = None /\
+  hash_of_old [0] (assoc_ace 127) [127] = None.
+Proof. exact highbyte_refuted. Qed.
+
+(* repaired (256 entries, unsigned index): every byte has its entry; the
+   lookup finds no port and logs nothing, with and without buffer; /ab still
+   reaches port 0 *)
+Theorem C04_highbyte_repaired :
+  hash_of [0] (assoc_ace 256) [233; 233] = Some 2 /\
+  hash_of [0] (assoc_ace 256) [127] = Some 1 /\
+  log (dispatch_table (leaf_cb (tab_hi 256)) no_dh (tab_hi 256) [47; 233; 233] [] true (init_state true 1)) = [] /\
+  log (dispatch_table (leaf_cb (tab_hi 256)) no_dh (tab_hi 256) [47; 233; 233] [] true (init_state false 1)) = [] /\
+  run_new (tab_hi 256) [47; 97; 98] true = [0].
+Proof. exact highbyte_repaired. Qed.
+
+(* the default handler as pinned: for /zz the hashed table {ab,cd,ef} runs it
+   with a location buffer and not without; the unhashed {a#2,cd} never runs it:
+   whether the catch-all sees a message depended on the lookup strategy *)
+Theorem C04_default_path_refuted :
+  dflt_old (with_dflt (tab_hi 127)) [47; 122; 122] true = 1%nat /\
+  dflt_old (with_dflt (tab_hi 127)) [47; 122; 122] false = 0%nat /\
+  dflt_old tab_lin [47; 122; 122] true = 0%nat /\
+  dflt_old tab_lin [47; 122; 122] false = 0%nat.
+Proof. exact default_path_refuted. Qed.
+
+(* repaired: once on every path, never when a port matches *)
+Theorem C04_default_path_repaired :
+  dflt_new (with_dflt (tab_hi 256)) [47; 122; 122] true = 1%nat /\
+  dflt_new (with_dflt (tab_hi 256)) [47; 122; 122] false = 1%nat /\
+  dflt_new tab_lin [47; 122; 122] true = 1%nat /\
+  dflt_new tab_lin [47; 122; 122] false = 1%nat /\
+  dflt_new tab_lin [47; 97; 49] true = 0%nat /\ dflt_new tab_lin [47; 97; 49] false = 0%nat /\
+  dflt_new (with_dflt (tab_hi 256)) [47; 99; 100] true = 0%nat /\
+  dflt_new (with_dflt (tab_hi 256)) [47; 99; 100] false = 0%nat.
+Proof. exact default_path_repaired. Qed.
 
 (* the hypotheses of C04_strategy_independent hold for {a:i, bc/, ba} *)
 Theorem C04_nonvacuous :
@@ -142,12 +188,14 @@ Proof. exact tab_ex_ok. Qed.
 (* the tree                                                                  *)
 (* ======================================================================== *)
 (* root_ok t m: every table of t is either not hashed by the library (then
-   nothing is asked of its names) or literal with assoc in range; flags and
-   sub-trees agree; the address is 7-bit without ':' *)
+   nothing is asked of its names) or literal with a 256-entry assoc of
+   non-negative values (what find_assoc builds); flags and sub-trees agree; the
+   address is a list of bytes (0..255, ANY of them - no 7-bit restriction)
+   without NUL and ':' *)
 
 (* what a root dispatch does, with a location buffer ... *)
 Theorem C04_tree_dispatch_loc : forall t m args o,
-  tree_ok t -> addr_chars (strip m) -> seven_bit (strip m) ->
+  tree_ok t -> addr_chars (strip m) -> byte_str (strip m) ->
   exists dp, dispatch t m args true o =
     {| loc := Some [47]; matches := leaf_count (spec_events t m args o true); obj := o;
        dport := dp; log := rev (spec_events t m args o true) |}.
@@ -196,15 +244,49 @@ Theorem C04_exactly_one_leaf : forall path t m args o,
 Proof. exact tree_exactly_one_leaf. Qed.
 
 (* the same callbacks (table, port, message pointer, object, leaf flag, port
-   pointer), in the same order, with and without a location buffer; only loc
-   and the default-handler calls differ *)
+   pointer) AND the same default-handler calls (table, message pointer,
+   object), in the same order, with and without a location buffer; only the
+   loc field differs (strip_ev keeps every event and blanks its loc).  Before
+   the fix "a table's default handler ... ran only when the table had a perfect
+   hash" this held only modulo the default-handler calls
+   (C04_default_path_refuted). *)
 Theorem C04_tree_strategy_independent : forall t m args o, root_ok t m ->
   strip_loc (rev (log (dispatch t m args true o))) = rev (log (dispatch t m args false o)).
 Proof. exact tree_strategy_independent. Qed.
 
+(* strip_loc drops nothing: as many default-handler calls after as before *)
+Theorem C04_strip_keeps_default_calls : forall l,
+  length (filter (fun e => match e with EvDefault _ _ _ _ => true | _ => false end) (strip_loc l)) =
+  length (filter (fun e => match e with EvDefault _ _ _ _ => true | _ => false end) l).
+Proof. exact strip_loc_defaults. Qed.
+
+(* when no port of the root table matches, both runs consist of exactly the
+   call of its default handler (nothing if it has none), whatever lookup
+   strategy the table got *)
+Theorem C04_default_handler_every_path : forall t m args o b,
+  scan_hits (t_ports (tab_of t)) 0 (strip m) args = [] ->
+  spec_events t m args o b =
+  if t_dflt (tab_of t)
+  then [EvDefault (t_id (tab_of t)) (strip m) o (if b then Some [47] else None)] else [].
+Proof. exact tree_default_both_runs. Qed.
+
+(* spec_events is computed with fuel (the depth of the tree); its out-of-fuel
+   value [EvError] is never what the equalities above are about: for every
+   tree, message, object, with or without buffer *)
+Theorem C04_spec_events_no_error : forall t m args o b, ~ In EvError (spec_events t m args o b).
+Proof. exact spec_events_no_error. Qed.
+
+(* and a root dispatch never logs the model's error event (letter table read
+   out of range / match without end pointer / out of fuel) *)
+Theorem C04_no_error : forall t m args o,
+  ~ In EvError (log (dispatch t m args false o)) /\
+  (root_ok t m -> ~ In EvError (log (dispatch t m args true o))).
+Proof. exact tree_no_error. Qed.
+
 (* tables with a '#' name (or a multi-component literal name) are never
    hashed; an unhashed table is served by the same scan with and without
-   buffer, whatever its names are *)
+   buffer, whatever its names are, followed in both runs by the default
+   handler iff there is one and no port matched (after_scan) *)
 Theorem C04_unhashed_tables : forall T,
   (exists p, In p (t_ports T) /\ (mem 35 (fst p) = true \/ inner_slash (fst p) = true)) ->
   tables_of T = None.
@@ -213,10 +295,12 @@ Proof. exact unhashed_tables. Qed.
 Theorem C04_unhashed_same_calls : forall cb dh T m args st l,
   tables_of T = None -> loc st = Some l -> l <> [] ->
   dispatch_table cb dh T m args false st =
-  fold_left (step_loc cb (t_id T) m (obj st) l) (scan_hits (t_ports T) 0 m args) st /\
+  after_scan T (scan_hits (t_ports T) 0 m args) (call_default dh m (obj st))
+    (fold_left (step_loc cb (t_id T) m (obj st) l) (scan_hits (t_ports T) 0 m args) st) /\
   forall st', loc st' = None ->
   dispatch_table cb dh T m args false st' =
-  fold_left (step_noloc cb (t_id T) m (obj st')) (scan_hits (t_ports T) 0 m args) st'.
+  after_scan T (scan_hits (t_ports T) 0 m args) (call_default_noloc dh m (obj st'))
+    (fold_left (step_noloc cb (t_id T) m (obj st')) (scan_hits (t_ports T) 0 m args) st').
 Proof. exact unhashed_same_calls. Qed.
 
 (* the recursion contract (SNIP of the rRecur*Cb callbacks after the commit
@@ -255,6 +339,19 @@ Theorem C04_multicomponent_names_nonvacuous :
   {| loc := Some [47]; matches := 1; obj := 1; dport := Some (0, 1);
      log := [Ev 0 1 [97; 49; 47; 107; 48] 1 (Some [47; 97; 49; 47; 107; 48]) (Some (0, 1)) true] |}.
 Proof. exact (conj tree_mc_ok (conj tree_mc_names (conj tree_mc_addressed tree_mc_run))). Qed.
+
+(* an address with bytes >= 0x80: "/a1/\xe9\xff" satisfies root_ok, descends
+   into the hashed table { b, c:i } and is delivered to no port there, in both
+   runs *)
+Theorem C04_eight_bit_nonvacuous :
+  root_ok tree_ex msg_hi /\
+  dispatch tree_ex msg_hi [] true 1 =
+  {| loc := Some [47]; matches := 0; obj := 1; dport := Some (0, 0);
+     log := [Ev 0 0 [97; 49; 47; 233; 255] 1 (Some [47; 97; 49; 47]) (Some (0, 0)) false] |} /\
+  dispatch tree_ex msg_hi [] false 1 =
+  {| loc := None; matches := 0; obj := 1; dport := Some (0, 0);
+     log := [Ev 0 0 [97; 49; 47; 233; 255] 1 None (Some (0, 0)) false] |}.
+Proof. exact tree_ex_highbyte. Qed.
 
 (* the hypotheses hold for { a#2/ -> { b, c:i } (hashed), d } and /a1/c *)
 Theorem C04_tree_nonvacuous :
